@@ -80,10 +80,14 @@ package rtree
 //@   ensures [perimeter] result == 2 * ((r.Max.X - r.Min.X) + (r.Max.Y - r.Min.Y))
 //@   modifies nothing
 
+//@ spec md1(v float64, lo float64, hi float64) float64 = v < lo ? sq(v - lo) : (v > hi ? sq(v - hi) : 0)
+//@ spec mdS(p geom.Point, b geom.Bounds) float64 = md1(p.X, b.Min.X, b.Max.X) + md1(p.Y, b.Min.Y, b.Max.Y)
+
 //@ func minDist
 //@   prop C12
 //@   mode real
 //@   requires [nonnil] r != nil
+//@   ensures [definition] result == mdS(p, *r)
 //@   ensures [attained] validB(*r) ==> result == d2(p, clampF(p.X, r.Min.X, r.Max.X), clampF(p.Y, r.Min.Y, r.Max.Y)) && inBox(*r, clampF(p.X, r.Min.X, r.Max.X), clampF(p.Y, r.Min.Y, r.Max.Y))
 //@   ensures [lower_bound] validB(*r) ==> (forall x float64, y float64 :: inBox(*r, x, y) ==> result <= d2(p, x, y))
 //@   modifies nothing
@@ -278,6 +282,7 @@ package rtree
 //@   modifies nothing
 //@   decreases n.level
 //@   loop 1 `for _, e := range n.entries`
+//@     complete [every_covering_subtree_is_searched] unless result != nil
 //@     invariant #1 <= len(n.entries) && n != nil && !n.leaf
 //@   loop 2 `for _, leafEntry := range leaf.entries`
 //@     invariant #2 <= len(leaf.entries) && leaf != nil && leaf.leaf && leaf.level == 1
@@ -293,6 +298,7 @@ package rtree
 //@   ensures [bookkeeping] tree.size == old(tree.size) && tree.MinChildren == old(tree.MinChildren) && tree.MaxChildren == old(tree.MaxChildren)
 //@   modifies *tree
 //@   loop 1 `for n != tree.root`
+//@     complete [walks_up_to_the_root]
 //@     invariant [deleted] fresh(deleted) || cap(deleted) == 0
 //@     invariant [tree] tree != nil && tree.root == old(tree.root) && tree.height == old(tree.height) && tree.size == old(tree.size) && tree.MinChildren == old(tree.MinChildren) && tree.MaxChildren == old(tree.MaxChildren)
 //@     invariant [levels_kept] forall m *node :: m != nil && !fresh(m) ==> m.level == old(m.level) && m.leaf == old(m.leaf)
@@ -354,13 +360,39 @@ package rtree
 //@   ensures [shape] fresh(result0) && fresh(result1) && len(result0) == len(entries) && len(result1) == len(entries)
 //@   ensures [permutation] subsetE(result0, entries) && subsetE(entries, result0)
 //@   ensures [sorted] sortedF(result1, len(entries))
+//@   ensures [paired] pairedD(p, result0, result1)
 //@   modifies nothing
+
+// The sort keeps each entry together with its distance: Swap exchanges both, Less looks at the distances.
+//@ pred pairedD(p geom.Point, es []entry, ds []float64) = len(ds) >= len(es) && (forall i int :: 0 <= i && i < len(es) ==> es[i].bb != nil && ds[i] == mdS(p, *es[i].bb))
+
+//@ func (s entrySlice) Len
+//@   prop C12
+//@   ensures [len] result == len(s.entries)
+//@   modifies nothing
+
+//@ func (s entrySlice) Less
+//@   prop C12
+//@   mode real
+//@   requires [index] 0 <= i && i < len(s.dists) && 0 <= j && j < len(s.dists)
+//@   ensures [by_distance] result <==> s.dists[i] < s.dists[j]
+//@   modifies nothing
+
+//@ func (s entrySlice) Swap
+//@   prop C12
+//@   mode real
+//@   requires [index] 0 <= i && i < len(s.entries) && 0 <= j && j < len(s.entries) && i < len(s.dists) && j < len(s.dists)
+//@   requires [separate] !sameObj(s.entries, s.dists)
+//@   ensures [both_swapped] s.entries[i] == old(s.entries[j]) && s.entries[j] == old(s.entries[i]) && s.dists[i] == old(s.dists[j]) && s.dists[j] == old(s.dists[i])
+//@   ensures [others_kept] forall k int :: 0 <= k && k != i && k != j ==> (k < len(s.entries) ==> s.entries[k] == old(s.entries[k])) && (k < len(s.dists) ==> s.dists[k] == old(s.dists[k]))
+//@   modifies s.entries, s.dists
 
 //@ func pruneEntries
 //@   prop C12
 //@   mode real
 //@   requires [boxes] forall i int :: 0 <= i && i < len(entries) ==> entries[i].bb != nil
 //@   requires [dists] len(minDists) >= len(entries)
+//@   requires [paired] pairedD(p, entries, minDists)
 //@   ensures [subset] fresh(result) && len(result) <= len(entries) && subsetE(result, entries)
 //@   ensures [never_prunes_everything] len(entries) >= 1 && (forall i int :: 0 <= i && i < len(entries) ==> minDists[i] <= 1.7976931348623157e308) ==> len(result) >= 1
 //@   modifies nothing
